@@ -38,12 +38,12 @@ def notifyLoop (size : Int) : Int → List (Nat × Int) → Int × List (Nat × 
   | cur, (id, n) :: t =>
     if size - cur < n then (cur, (id, n) :: t, [])
     else
-      let (cur', rest, adm) := notifyLoop size (cur + n) t
-      (cur', rest, (id, n) :: adm)
+      let r := notifyLoop size (cur + n) t
+      (r.1, r.2.1, (id, n) :: r.2.2)
 
 def Sem.notify (s : Sem) : Sem × List SEv :=
-  let (cur', rest, adm) := notifyLoop s.size s.cur s.waiters
-  ({ s with cur := cur', waiters := rest, held := s.held ++ adm }, adm.map (fun a => SEv.woken a.1))
+  let r := notifyLoop s.size s.cur s.waiters
+  ({ s with cur := r.1, waiters := r.2.1, held := s.held ++ r.2.2 }, r.2.2.map (fun a => SEv.woken a.1))
 
 def heldAmount (id : Nat) : List (Nat × Int) → Option Int
   | [] => none
@@ -52,6 +52,11 @@ def heldAmount (id : Nat) : List (Nat × Int) → Option Int
 def eraseId (id : Nat) : List (Nat × Int) → List (Nat × Int)
   | [] => []
   | (i, n) :: t => if i = id then t else (i, n) :: eraseId id t
+
+/-- `s.waiters.Front() == elem` -/
+def isFront (id : Nat) : List (Nat × Int) → Bool
+  | (i0, _) :: _ => i0 == id
+  | [] => false
 
 inductive SOp where
   /-- `TryAcquire(n)` for request `id` -/
@@ -77,23 +82,17 @@ def Sem.step (s : Sem) : SOp → Sem × List SEv
   | .cancel id =>
     if (heldAmount id s.waiters).isNone then (s, [])   -- not queued (never was, or already admitted)
     else
-      let isFront := match s.waiters with
-        | (i0, _) :: _ => i0 == id
-        | [] => false
       let s1 := { s with waiters := eraseId id s.waiters }
-      if isFront && s1.size > s1.cur then
-        let (s2, evs) := s1.notify
-        (s2, SEv.cancelled id :: evs)
+      if isFront id s.waiters && s1.size > s1.cur then (s1.notify.1, SEv.cancelled id :: s1.notify.2)
       else (s1, [.cancelled id])
   | .release id =>
     match heldAmount id s.held with
     | none => (s, [])
     | some n =>
       let s1 := { s with cur := s.cur - n, held := eraseId id s.held }
-      if s1.cur < 0 then (s1, [.panic])
-      else
-        let (s2, evs) := s1.notify
-        (s2, SEv.released id :: evs)
+      if n = 0 then (s1, [.released id])        -- `if taken != 0 { s.reqMemSem.Release(…) }`: no Release, no wake-up
+      else if s1.cur < 0 then (s1, [.panic])
+      else (s1.notify.1, SEv.released id :: s1.notify.2)
 
 def Sem.run (s : Sem) : List SOp → Sem × List SEv
   | [] => (s, [])
